@@ -52,6 +52,28 @@ func WithOptions(opts *CorrectionOptions) schema.Option {
 	return func(o interface{}) {
 		if o2 := o.(*CorrectionOptions); opts != nil {
 			*o2 = *opts
+			// copy, never share with the caller: raw option data is decoded
+			// into these values and the corrected document keeps them
+			if opts.IssueDate != nil {
+				d := *opts.IssueDate
+				o2.IssueDate = &d
+			}
+			if opts.Stamps != nil {
+				o2.Stamps = make([]*head.Stamp, 0, len(opts.Stamps))
+				for _, s := range opts.Stamps {
+					if s == nil {
+						continue
+					}
+					cs := *s
+					o2.Stamps = append(o2.Stamps, &cs)
+				}
+			}
+			if opts.Ext != nil {
+				o2.Ext = make(tax.Extensions, len(opts.Ext))
+				for k, v := range opts.Ext {
+					o2.Ext[k] = v
+				}
+			}
 		}
 	}
 }
